@@ -1,5 +1,6 @@
 import HeimdallModel.Lemmas.Conc
-/-! Ownership of the commit log: every successfully completed change is in the log exactly once. -/
+/-! Ownership of the commit log: every successfully completed change is in the log exactly once (whatever the
+release discipline, whatever number of lookups and changes panic). -/
 namespace Heimdall.Conc
 
 variable {K T Op Req Ans : Type}
@@ -34,36 +35,48 @@ theorem oinv_of_eq (c c' : Config K T Op Req Ans) (i : Nat) (t : Thread K T Op R
     · subst e; rw [upd_same, hop]
     · rw [upd_other _ _ _ _ e]
 
-theorem oinv_step (s : Seq K T Op Req Ans) (c c' : Config K T Op Req Ans)
-    (ho : OInv c) (hs : Step s c c') : OInv c' := by
+theorem oinv_step (d : Discipline) (s : Seq K T Op Req Ans) (c c' : Config K T Op Req Ans)
+    (ho : OInv c) (hs : Step d s c c') : OInv c' := by
   cases hs with
-  | wLock i op loc h free =>
+  | wPanicReleased hd _ i op pc loc h hpc hl =>
+    refine oinv_of_eq c _ i _ rfl rfl rfl ?_ (by simp [h, opOf]) ho
+    rcases hpc with rfl | rfl <;> simp [h, committed]
+  | wPanicLeaked hd _ i op pc loc h hpc hl =>
+    refine oinv_of_eq c _ i _ rfl rfl rfl ?_ (by simp [h, opOf]) ho
+    rcases hpc with rfl | rfl <;> simp [h, committed]
+  | rPanicReleased hd _ i rq st h =>
     exact oinv_of_eq c _ i _ rfl rfl rfl (by simp [h, committed]) (by simp [h, opOf]) ho
-  | wReadKnown i op loc h hl =>
+  | rPanicLeaked hd _ i rq st h =>
     exact oinv_of_eq c _ i _ rfl rfl rfl (by simp [h, committed]) (by simp [h, opOf]) ho
-  | wClone i op loc h hl =>
+  | wLock _ i op loc h free =>
     exact oinv_of_eq c _ i _ rfl rfl rfl (by simp [h, committed]) (by simp [h, opOf]) ho
-  | wComputeOk i op loc st' h hl ha =>
+  | wReadKnown _ i op loc h hl =>
     exact oinv_of_eq c _ i _ rfl rfl rfl (by simp [h, committed]) (by simp [h, opOf]) ho
-  | wComputeErr i op loc h hl ha =>
+  | wClone _ i op loc h hl =>
     exact oinv_of_eq c _ i _ rfl rfl rfl (by simp [h, committed]) (by simp [h, opOf]) ho
-  | wFail i op loc h hl =>
+  | wComputeOk _ i op loc st' h hl ha =>
     exact oinv_of_eq c _ i _ rfl rfl rfl (by simp [h, committed]) (by simp [h, opOf]) ho
-  | wKnown i op st' h hl =>
+  | wComputeErr _ i op loc h hl ha =>
     exact oinv_of_eq c _ i _ rfl rfl rfl (by simp [h, committed]) (by simp [h, opOf]) ho
-  | wRWLock i op st' h free nor =>
+  | wFail _ i op loc h hl =>
     exact oinv_of_eq c _ i _ rfl rfl rfl (by simp [h, committed]) (by simp [h, opOf]) ho
-  | wRWUnlock i op st' h hl =>
+  | wKnown _ i op st' h hl =>
     exact oinv_of_eq c _ i _ rfl rfl rfl (by simp [h, committed]) (by simp [h, opOf]) ho
-  | wUnlock i op st' h hl =>
+  | wRWRequest _ i op st' h free =>
     exact oinv_of_eq c _ i _ rfl rfl rfl (by simp [h, committed]) (by simp [h, opOf]) ho
-  | rLock i rq h free =>
+  | wRWAcquire _ i op st' h hl nor =>
     exact oinv_of_eq c _ i _ rfl rfl rfl (by simp [h, committed]) (by simp [h, opOf]) ho
-  | rSearch i rq st h =>
+  | wRWUnlock _ i op st' h hl =>
     exact oinv_of_eq c _ i _ rfl rfl rfl (by simp [h, committed]) (by simp [h, opOf]) ho
-  | rUnlock i rq a st n h =>
+  | wUnlock _ i op st' h hl =>
     exact oinv_of_eq c _ i _ rfl rfl rfl (by simp [h, committed]) (by simp [h, opOf]) ho
-  | wIndex i op st' h hl =>
+  | rLock _ i rq h free =>
+    exact oinv_of_eq c _ i _ rfl rfl rfl (by simp [h, committed]) (by simp [h, opOf]) ho
+  | rSearch _ i rq st h =>
+    exact oinv_of_eq c _ i _ rfl rfl rfl (by simp [h, committed]) (by simp [h, opOf]) ho
+  | rUnlock _ i rq a st n h =>
+    exact oinv_of_eq c _ i _ rfl rfl rfl (by simp [h, committed]) (by simp [h, opOf]) ho
+  | wIndex _ i op st' h hl =>
     have hni : i ∉ c.owners := by
       intro hm; have := (ho.mem i).mp hm; rw [h] at this; simp [committed] at this
     refine ⟨?_, ?_, ?_⟩
@@ -95,9 +108,10 @@ theorem oinv_initial (s : Seq K T Op Req Ans) (c : Config K T Op Req Ans) (h : I
   intro j
   rcases h8 j with ⟨op, loc, e⟩ | ⟨rq, e⟩ <;> simp [e, h6, committed]
 
-theorem oinv_reachable (s : Seq K T Op Req Ans) (c : Config K T Op Req Ans) (h : Reachable s c) : OInv c := by
+theorem oinv_reachable (d : Discipline) (s : Seq K T Op Req Ans) (c : Config K T Op Req Ans)
+    (h : Reachable d s c) : OInv c := by
   induction h with
   | init c hc => exact oinv_initial s c hc
-  | step c c' _ hs ih => exact oinv_step s c c' ih hs
+  | step c c' _ hs ih => exact oinv_step d s c c' ih hs
 
 end Heimdall.Conc
